@@ -203,6 +203,9 @@ func (e *Exec) rtIntrinsic(name string, fn *ssa.Function, args []Value) (Value, 
 			return tb.BV(0, 8), true
 		}
 		return tb.Ite(tb.Ult(tb.BV(int64(k), 64), sv.len), e.byteAt(sv, k), tb.BV(0, 8)), true
+	case "ProbeAttestation":
+		e.probeAttestation(args)
+		return nil, true
 	case "SubBytes":
 		b := e.asBytes(args[0], name)
 		off, n := args[1].(*Term), args[2].(*Term)
@@ -522,6 +525,8 @@ func (e *Exec) witnessValues(ts []*Term, vals []*big.Int) map[string]string {
 		if p.T != nil {
 			v := get(p.T)
 			out["probe:"+p.Label] = v.String()
+		} else if p.Const != "" {
+			out["probe:"+p.Label] = p.Const
 		}
 	}
 	return out
@@ -546,4 +551,76 @@ func (e *Exec) catch(f Value) (res Value) {
 	}()
 	e.callValue(f, nil)
 	return tb.ff
+}
+
+// probeAttestation registers the attestation shape as probes (see harness/verifrt/concretise.go).
+func (e *Exec) probeAttestation(args []Value) {
+	tb := e.tb
+	msgName, attName, pfx := e.mustString(args[0], "ProbeAttestation"), e.mustString(args[1], "ProbeAttestation"), e.mustString(args[2], "ProbeAttestation")
+	msg, att := e.asBytes(args[3], "ProbeAttestation"), e.asBytes(args[4], "ProbeAttestation")
+	gs, ok := args[5].(*GSliceV)
+	if !ok {
+		e.fail("ProbeAttestation attesters %T", args[5])
+	}
+	mt, ok := args[6].(*Term)
+	if !ok || !mt.isConst() {
+		e.fail("ProbeAttestation maxT must be constant")
+	}
+	maxT := int(mt.i64())
+	konst := func(label, v string) { e.probes = append(e.probes, probeRec{Label: label, Const: v}) }
+	konst("shape/msg", msgName)
+	konst("shape/att", attName)
+	konst("shape/attesters", pfx)
+	konst("shape/n", fmt.Sprint(len(gs.e)))
+	konst("shape/maxT", fmt.Sprint(maxT))
+	digest := e.keccak(msg)
+	var hp []*Term
+	for i := 0; i < 32; i++ {
+		hp = append(hp, e.byteAt(digest, i))
+	}
+	hh := tb.Concat(hp...)
+	var keys []*SliceV
+	for _, c := range gs.e {
+		keys = append(keys, e.fromHex(e.asBytes(c.v, "ProbeAttestation")))
+	}
+	var prevAddr *SliceV
+	rc := e.reprCap(att)
+	for i := 0; i < maxT; i++ {
+		var sp []*Term
+		for k := 0; k < 65; k++ {
+			idx := 65*i + k
+			var b *Term = tb.BV(0, 8)
+			if idx < rc {
+				b = tb.Ite(tb.Ult(tb.BV(int64(idx), 64), att.len), e.byteAt(att, idx), tb.BV(0, 8))
+			}
+			sp = append(sp, b)
+		}
+		v := sp[64]
+		is2728 := tb.Or(tb.Eq(v, tb.BV(27, 8)), tb.Eq(v, tb.BV(28, 8)))
+		sp[64] = tb.Ite(is2728, tb.Sub(v, tb.BV(27, 8)), v)
+		ss := tb.Concat(sp...)
+		recok := tb.And(tb.Ult(sp[64], tb.BV(4, 8)), tb.UF("rec_ok", 0, hh, ss))
+		key := e.bytesFromTerm(tb.UF("rec_key", 65*8, hh, ss), 65, false)
+		e.probes = append(e.probes, probeRec{Label: fmt.Sprintf("shape/recok/%d", i), T: recok})
+		for j, kj := range keys {
+			e.probes = append(e.probes, probeRec{Label: fmt.Sprintf("shape/member/%d/%d", i, j), T: e.bytesEqual(kj, key)})
+		}
+		var xs, ys []*Term
+		xs = append(xs, tb.BV(0, bigW-256))
+		ys = append(ys, tb.BV(0, bigW-256))
+		for k := 1; k < 33; k++ {
+			xs = append(xs, e.byteAt(key, k))
+		}
+		for k := 33; k < 65; k++ {
+			ys = append(ys, e.byteAt(key, k))
+		}
+		x, y := tb.Concat(xs...), tb.Concat(ys...)
+		ao := tb.UF("ethaddr", 160, x, y)
+		e.injective("ethaddr", tb.Concat(x, y), ao)
+		addr := e.bytesFromTerm(ao, 20, false)
+		if i > 0 {
+			e.probes = append(e.probes, probeRec{Label: fmt.Sprintf("shape/less/%d", i), T: e.bytesLess(prevAddr, addr)})
+		}
+		prevAddr = addr
+	}
 }
